@@ -761,6 +761,10 @@ func (l *segment) empty() bool {
 func (l *segment) close() error {
 	l.mu.Lock()
 	defer l.mu.Unlock()
+	// Blocks accepted on the buffered path are still in memory: write them out first.
+	if err := l.flush(); err != nil {
+		return err
+	}
 	if err := l.file.Close(); err != nil {
 		return err
 	}
